@@ -663,7 +663,7 @@ func (e *Env) call(n *ECall) Val {
 		}
 		pf, ps, _, _ := g.mapFams2(mt)
 		k := e.coerceTo(e.tr(n.Args[1]), mt.Key())
-		return Val{T: fmt.Sprintf("(select (select %s %s) %s)", g.heapGet(e.state(), pf, ps), m.T, k.T), S: "Bool", GT: types.Typ[types.Bool]}
+		return Val{T: fmt.Sprintf("(and (not (= %s 0)) (select (select %s %s) %s))", m.T, g.heapGet(e.state(), pf, ps), m.T, k.T), S: "Bool", GT: types.Typ[types.Bool]}
 	case "typeis":
 		v := e.tr(n.Args[0])
 		var ts string
